@@ -253,3 +253,7 @@ def freq_axis_unbounded(V):
             out.prove('reported-frequency-is-(rows - argmax)/(2 rows dt), i.e. k/(N dt) with the Nyquist row first',
                       T.seq(r[t], T.sdiv(T.ssub(rows, w[t]), T.smul(T.smul(2, rows), dt))))
         out.unchanged('S', Sx)
+
+
+from pyvc.api import int_variant
+int_variant('C15', 'transform-is-the-conjugate-discrete-S-transform', ['x'])
